@@ -21,7 +21,7 @@ ASSUMPTIONS = ["'takes effect after clear_checkpoint' is read from the log: the 
                "comes after the clear_checkpoint message", "no checkpoint follows clear_checkpoint in these plans (toggling 'rewindable' or closing the run and opening "
                "another one inside the section is not a checkpoint)"]
 REQUIRED_COUNTERS = {"executions": 300, "nonresumable_interruptions": 150, "pause_kind": 50, "suspend_kind": 50,
-                     "cleanup_observed": 150}
+                     "cleanup_observed": 150, "deferred_kind": 10}
 MANIFEST = {
     "technique": "log-order oracle (request after clear_checkpoint -> no 'paused', RunEngineInterrupted, idle, abort "
                  "status, cleanup after request, engine usable) over an exhaustive coordinate sweep",
@@ -39,6 +39,9 @@ worker_init = sweepcheck.worker_init
 
 def gen_cases(tier, seed):
     cases = sweepcheck.gen_cases(tier, seed, PLANS_Q, PLANS_T, ["pause", "suspend", "t-pause"], nslices=(3, 3))
+    # a DEFERRED pause requested inside the section is served at the section's next 'checkpoint' message, which does not
+    # make the plan resumable again: it must end in the same clean abort (and not be dropped)
+    cases += sweepcheck.gen_cases(tier, seed, ["clearcp_cp"], ["clearcp_cp"], ["defer", "pause", "suspend"], nslices=(2, 2))
     # the plan itself asks for the pause (Msg('pause')) at every position of the section: no injection needed
     ks = range(0, 16) if tier == "thorough" else range(0, 16, 2)
     cases += [{"replay_spec": {"plan": f"clearcp_ip{pos}_{k}", "decisions": ["resume", "resume"]}, "kind": "inplan"}
@@ -62,6 +65,11 @@ def judge(ex, ref, case):
     else:
         inj = next(i for i, e in enumerate(log) if e[0] == "inject")
     eff = next((i for i, e in enumerate(log) if i > inj and e[0] == "state" and e[1] in ("pausing", "suspending", "aborting")), None)
+    if li[0]["kind"] == "defer":
+        # takes effect at the first checkpoint processed after the request was accepted (within the section)
+        acc = next((i for i, e in enumerate(log) if i > inj and e[0] == "req" and e[1] == "defer" and e[2] == "accepted"), None)
+        cpi = None if acc is None else next((i for i, e in enumerate(log) if i > acc and e[0] == "msg" and e[1].command == "checkpoint"), None)
+        eff = cpi
     cc = next((i for i, e in enumerate(log) if e[0] == "msg" and e[1].command == "clear_checkpoint"), None)
     end_call = next((i for i, e in enumerate(log) if e[0] in ("ret", "exc") and e[1] == "RE"), len(log))
     sec_end = next((i for i, e in enumerate(log) if e[0] == "plan" and e[1] in ("nonresumable-end", "cleanup-start")), len(log))
@@ -69,7 +77,7 @@ def judge(ex, ref, case):
         return [R("skip", key0, False, detail="request did not take effect inside the non-resumable section")]
     kind = li[0]["kind"]
     counters = {"executions": 1, "nonresumable_interruptions": 1, "pause_kind": int("pause" in kind),
-                "suspend_kind": int(kind == "suspend"), "cleanup_observed": 0}
+                "suspend_kind": int(kind == "suspend"), "cleanup_observed": 0, "deferred_kind": int(kind == "defer")}
     problems = []
     states_after = [e[1] for e in log[eff:] if e[0] == "state"]
     call_end = log[end_call] if end_call < len(log) else None
